@@ -181,6 +181,11 @@ OccKids(k, i) == IF i > Len(k) THEN <<>> ELSE Occurrences(k[i]) \o OccKids(k, i 
 Occurrences(n) ==
   (IF n.o \in {"Read", "Write", "Call"} THEN <<[n |-> n.n, c |-> n.o]>> ELSE <<>>) \o OccKids(n.k, 1)
 
+\* compact JSON projection of a tree
+RECURSIVE JTree(_)
+JTree(n) == IF n.o = "Const" THEN [o |-> n.o, n |-> n.n, v |-> JVal(n.v), k |-> <<>>]
+            ELSE [o |-> n.o, n |-> n.n, k |-> [i \in 1..Len(n.k) |-> JTree(n.k[i])]]
+
 RECURSIVE NodeCount(_)
 RECURSIVE CountKids(_, _)
 CountKids(k, i) == IF i > Len(k) THEN 0 ELSE NodeCount(k[i]) + CountKids(k, i + 1)
